@@ -53,13 +53,187 @@ def regenerate():
     return {"regenerated": [os.path.relpath(c, paths.ROOT) for c in ch], "shapes": len(SHAPES)}
 
 
+BASE = ["5", "foo", "-", "--", "--zz"]
+_SEEN_HANG = {"lines": 0, "diverge": 0}
+
+
+def shape_of(op):
+    t = op.split()
+    try:
+        return SHAPES[int(t[1])]
+    except (IndexError, ValueError):
+        return None
+
+
+def alphabets(s):
+    """(core alphabet used up to the full length, extended alphabet used for short vectors)"""
+    own = G.own_tokens(s)
+    tys = G.value_types(s)
+    core = own[:5] + BASE
+    ext = list(own) + BASE + ["~", "-q", "-3", "red", "007", "+5", "5x", "99999999999"]
+    # the other dash form of every own name (--x for -x, -x for --x): is_short must be told apart
+    for t in own:
+        if t.startswith("--"):
+            ext.append("-" + t[2:])
+        elif t.startswith("-"):
+            ext.append("--" + t[1:])
+    if "enm" in tys:
+        ext.append("blue")
+    if "uns" in tys:
+        ext.append("4294967296")
+    if "int" in tys:
+        ext.append("-2147483648")
+    dedup = []
+    for t in ext:
+        if t not in dedup:
+            dedup.append(t)
+    return core, dedup
+
+
+def ex_ops(sid, n, alpha, per_op=12000):
+    """digest ops covering all vectors of length n over alpha, split by prefixes so that one op covers <= per_op vectors"""
+    k = len(alpha)
+    plen = 0
+    while k ** (n - plen) > per_op and plen < n:
+        plen += 1
+    head = f"ex {sid} {n} {k} " + " ".join(alpha)
+    prefixes = [[]]
+    for _ in range(plen):
+        prefixes = [p + [t] for p in prefixes for t in alpha]
+    return [(head + " " + " ".join(p)).rstrip() for p in prefixes]
+
+
+def weight(op):
+    t = op.split()
+    if t[0] == "ex":
+        n, k = int(t[2]), int(t[3])
+        return k ** (n - (len(t) - 4 - k))
+    return 1
+
+
+def refine(op):
+    t = op.split()
+    if t[0] != "ex":
+        return None
+    n, k = int(t[2]), int(t[3])
+    alpha, pre = t[4:4 + k], t[4 + k:]
+    if len(pre) == n:
+        return [("run " + t[1] + " " + " ".join(pre)).rstrip()]
+    return [" ".join(t + [a]) for a in alpha]
+
+
+def nontrivial(op, model_line):
+    t = op.split()
+    if t[0] == "hang":
+        _SEEN_HANG["lines"] += 1
+        if model_line.startswith("diverge"):
+            _SEEN_HANG["diverge"] += 1
+    s = shape_of(op)
+    return s is not None and not model_line.startswith("exc:")
+
+
+def _known_entry(findings):
+    for f in findings:
+        if f.get("status") == "known" and f.get("property") == "C03":
+            return f
+    return None
+
+
+def known_finding_lines(findings, ev):
+    """The hang batch runs on every check: the model predicts `diverge`, the harness prints TIMEOUT (the runner treats the
+    two as agreement; any other combination is a VIOLATION).  The property is violated there all the same, so the
+    listed finding is printed whenever the batch ran."""
+    f = _known_entry(findings)
+    if f is not None and _SEEN_HANG["diverge"] > 0:
+        return [f["line"]]
+    return []
+
+
+def classify(violation, findings):
+    """Only a hang of a many-of-nonconsuming shape is the known finding; everything else stays a violation."""
+    if violation.get("kind") != "input" or not violation.get("ops"):
+        return None
+    op = violation["ops"][-1]
+    s = shape_of(op)
+    if s is None or op.split()[0] not in ("run", "hang") or not G.has_bad_many(s["p"]):
+        return None
+    obs = (violation.get("observed") or [""])[-1]
+    if obs != "TIMEOUT":
+        return None
+    return _known_entry(findings)
+
+
+def rand_vector(r, s, ext, lo, hi):
+    own = G.own_tokens(s)
+    optnames = []
+    for l in G.leaves(s["p"]):
+        if l[0] == "opt":
+            optnames.append("--" + l[3])
+            if l[2] is not None:
+                optnames.append("-" + l[2])
+    values = ["5", "foo", "-3", "red", "12", "bar", "0", "blue", "--zz", "-"]
+    n = r.range(lo, hi)
+    v = []
+    while len(v) < n:
+        k = r.below(10)
+        if k < 4 and own:
+            t = r.choice(own)
+        elif k < 8:
+            t = r.choice(values)
+        else:
+            t = r.choice(ext)
+        v.append(t)
+        if t in optnames and r.chance(3, 4):
+            v.append(r.choice(values + own[:2]))
+    return v[:hi]
+
+
+HANG_LINES = ["hang 62", "hang 63", "hang 64", "hang 65 foo", "hang 62 --f --f", "hang 63 --o 5"]
+HANG_SHAPES_TERMINATING = ["run 63 --o", "run 63 --o x", "run 63 5 --o", "run 64 foo", "run 64 5 foo", "run 65", "run 65 foo bar", "run 65 -x"]
+
+
 def batches(rng, tier):
+    thorough = tier == "thorough"
+    _SEEN_HANG["lines"] = 0
+    _SEEN_HANG["diverge"] = 0
+    full = 6 if thorough else 4
+    short = 4 if thorough else 3
+    # 1. constructors: every shape once on the empty vector (ctor shapes: that is all there is to observe)
+    yield Batch("construct", [f"run {s['id']}" for s in SHAPES if s["kind"] != "hang"], exhaustive=True,
+                note="every shape constructed once; the `ctor` shapes are the ill-/well-formed definitions")
+    # 2. exhaustive vectors
+    for n in range(0, full + 1):
+        ops = []
+        for s in SHAPES:
+            if s["kind"] == "hang" or (s["kind"] == "ctor" and n > 3):
+                continue
+            core, _ = alphabets(s)
+            ops += ex_ops(s["id"], n, core)
+        yield Batch(f"exhaustive-core-len{n}", ops, exhaustive=True, note=f"all vectors of length {n} over each shape's core alphabet (own names, 5, foo, -, --, --zz)")
+    for n in range(1, short + 1):
+        ops = []
+        for s in SHAPES:
+            if s["kind"] != "ok":
+                continue
+            _, ext = alphabets(s)
+            ops += ex_ops(s["id"], n, ext)
+        yield Batch(f"exhaustive-ext-len{n}", ops, exhaustive=True, note=f"all vectors of length {n} over each shape's extended alphabet (all own names in both dash forms, empty string, numbers at the type limits, enum names, ...)")
+    # 3. longer random vectors
+    r = rng.fork("long")
+    per = 400 if thorough else 60
     ops = []
     for s in SHAPES:
-        if s["kind"] != "hang":
-            ops.append(f"run {s['id']}")
-            ops.append(f"run {s['id']} 5")
-    yield Batch("smoke", ops, note="every shape on [] and [5]")
+        if s["kind"] != "ok":
+            continue
+        _, ext = alphabets(s)
+        for _ in range(per):
+            ops.append(f"run {s['id']} " + " ".join(rand_vector(r, s, ext, 7, 16)))
+    yield Batch("random-long", ops, note="seeded vectors of length 7..16, option names mostly followed by a value")
+    # 4. the known finding, under a 2 s watchdog per line; and inputs on which the same shapes do terminate
+    yield Batch("hang-shapes-terminating", HANG_SHAPES_TERMINATING, note="many-of-nonconsuming shapes on inputs where an other_error ends the loop")
+    r = rng.fork("hang")
+    lines = HANG_LINES if thorough else [HANG_LINES[0]] + [r.choice(HANG_LINES[1:])]
+    yield Batch("known-hang", lines, note="KNOWN FINDING: many(<parser that succeeds without consuming>) never terminates; harness TIMEOUT = model diverge")
 
 
 MANIFEST = {
